@@ -1,6 +1,7 @@
 package checks
 
 import (
+	"encoding/binary"
 	"fmt"
 	"testing"
 
@@ -556,8 +557,62 @@ func genC06Accept(t *rapid.T) c06Accept {
 	return c
 }
 
+// c06LongFrames: datagrams in which one frame carries a length field at or next to a power of
+// two up to the largest (0xFFFF: a frame of 262144 octets, which the library's own Marshal
+// produces), in first, middle and last position among small frames. The split arithmetic
+// `(length+1)*4` is only wrong, if it is, for such frames.
+func c06LongFrames() []c06Case {
+	pli := m.Bytes{0x81, 206, 0, 2, 0, 0, 0, 1, 0, 0, 0, 2}
+	bye := m.Bytes{0x81, 203, 0, 1, 0xde, 0xad, 0xbe, 0xef}
+	var out []c06Case
+	for _, L := range []int{0x3FFF, 0x4000, 0x7FFF, 0x8000, 0xFFFE, 0xFFFF} {
+		for kind := 0; kind < 3; kind++ {
+			f := make(m.Bytes, 4*(L+1))
+			for i := 12; i < len(f); i++ {
+				f[i] = byte(i*13 + 5)
+			}
+			switch kind {
+			case 0: // an unregistered packet type: returned verbatim
+				f[0], f[1] = 0x80, 192
+			case 1: // a receiver report without report blocks, the rest is its profile extension
+				f[0], f[1] = 0x80, 201
+			default: // application-defined: source, name, data
+				f[0], f[1] = 0x85, 204
+			}
+			binary.BigEndian.PutUint16(f[2:], uint16(L))
+			for pos := 0; pos < 3; pos++ {
+				c := c06Case{}
+				switch pos {
+				case 0:
+					c.Frames, c.Split = []m.Bytes{f, bye}, 1
+				case 1:
+					c.Frames, c.Split = []m.Bytes{pli, f, bye}, 2
+				default:
+					c.Frames, c.Split = []m.Bytes{pli, bye, f}, 2
+				}
+				c.Valid = make([]bool, len(c.Frames))
+				for i := range c.Valid {
+					c.Valid[i] = true
+				}
+				out = append(out, c)
+			}
+		}
+	}
+	return out
+}
+
 func TestC06(t *testing.T) {
 	defer harness.Uncaught(t)
+	if harness.Cfg.Shard == 0 {
+		ls := c06LongFrames()
+		for _, c := range ls {
+			subC06.Check(t, c)
+		}
+		harness.Eval(subC06.Name+"/long-frames", int64(len(ls)))
+		harness.NonTrivialDistinct(int64(len(ls)))
+		harness.Class("long-frame-in-datagram", int64(len(ls)))
+		harness.Exhaustive(subC06.Name+"/long-frames", "3 frame kinds (unregistered type, receiver report with extension, application-defined) x length field {0x3FFF, 0x4000, 0x7FFF, 0x8000, 0xFFFE, 0xFFFF} x {first, middle, last} among small frames")
+	}
 	harness.RapidCheck(t, harness.Scale(6000, 60000), 67, func(rt *rapid.T) {
 		c := genC06Accept(rt)
 		harness.Eval(subC06Accept.Name, 1)
